@@ -48,6 +48,47 @@ pub fn judge(sc: &StreamSc, obs: &Obs, probe_at: Option<usize>) -> (Judgement, O
     let decision = m.reject.map(|r| r.0).unwrap_or(n);
     let phase = probe_at.map(|k| refpda::phase_before(&d.items, k.min(n)));
     let boundary = |p: usize| m.offs.binary_search(&p).is_ok();
+    if sc.target != Target::Value {
+        // String / NumberBuf / bool / () parsed on their own: the property gives no grammar to measure a
+        // viable prefix against, but three of its clauses need none — every offset is a character
+        // boundary of the input, the reported character is the input character at the reported offset
+        // (none exactly at the end), and a stream / UTF-8 error sits where the input stops
+        let j = (|| {
+            let e = match &obs.real { Real::Err(e) => e, Real::Ok { .. } => return Judgement::Pass, _ => return Judgement::Note("panic-or-spin (a C03 matter, not judged here)") };
+            let mut offs = vec![e.position, e.span.0, e.span.1];
+            match &e.err {
+                PErr::Stream { p, .. } | PErr::Unexpected { p, .. } | PErr::InvalidUtf8 { p } => offs.push(*p),
+                PErr::InvalidCp { s, e, .. } | PErr::MissingLow { s, e, .. } | PErr::InvalidLow { s, e, .. } => { offs.push(*s); offs.push(*e) }
+            }
+            for o in &offs { if !boundary(*o) { return Judgement::Violation("c07.offset_not_boundary", format!("{} (target {}): offset {} is not a character boundary of the delivered input (length {})", obs.real.describe(), sc.target.name(), o, total)); } }
+            if e.span.0 > e.span.1 { return Judgement::Violation("c07.span_inverted", format!("{}: span start exceeds span end", obs.real.describe())); }
+            match &e.err {
+                PErr::Unexpected { p, c } => {
+                    // (under a length profile with zero-length characters several characters sit at one offset)
+                    let there: Vec<char> = d.items.iter().enumerate().filter(|(k, _)| m.offs[*k] == *p).map(|(_, it)| it.0).collect();
+                    let ok = match c { Some(ch) => there.contains(ch), None => *p == total };
+                    if !ok {
+                        return Judgement::Violation("c07.unexpected_position", format!("target {}: reported Unexpected({}, {:?}) but the input character at offset {} is {:?} (input length {})", sc.target.name(), p, c, p, there, total));
+                    }
+                    if c.is_none() && *p != total { return Judgement::Violation("c07.unexpected_position", format!("target {}: reported Unexpected({}, None) but the input is {} bytes long", sc.target.name(), p, total)); }
+                    if e.position != *p || e.span.0 != *p { return Judgement::Violation("c07.accessor_mismatch", format!("Unexpected({}, {:?}) but position()={} span()={}..{}", p, c, e.position, e.span.0, e.span.1)); }
+                    Judgement::Pass
+                }
+                PErr::Stream { p, id } => match d.term {
+                    Term::Fail(id2) if *p == total && *id == id2 => Judgement::Pass,
+                    Term::Fail(id2) => Judgement::Violation("c07.stream_error_position", format!("target {}: stream failed (id {}) after {} bytes but Stream({}, {}) was reported", sc.target.name(), id2, total, p, id)),
+                    _ => Judgement::Violation("c07.stream_error_position", format!("Stream({}, {}) reported but the stream did not fail", p, id)),
+                },
+                PErr::InvalidUtf8 { p } => match d.term {
+                    Term::IllFormed if *p == total => Judgement::Pass,
+                    Term::IllFormed => Judgement::Violation("c07.invalid_utf8_position", format!("target {}: first ill-formed sequence starts at byte {} but InvalidUtf8({}) was reported", sc.target.name(), total, p)),
+                    _ => if sc.entry.bytes() { Judgement::Violation("c07.invalid_utf8_position", format!("InvalidUtf8({}) reported but the byte input is well-formed UTF-8", p)) } else { Judgement::Note("InvalidUtf8 on a character input") },
+                },
+                _ => Judgement::Pass,
+            }
+        })();
+        return (j, phase, decision);
+    }
     let j = (|| {
         let e = match &obs.real {
             Real::Panic(_) | Real::Spin => return Judgement::Note("panic-or-spin (a C03 matter, not judged here)"),
@@ -504,7 +545,26 @@ impl Search {
         }
         let es = entries_for(profile != 0, has_fail);
         let entry = *rng.pick(es);
-        let mut sc = StreamSc { entry, target: Target::Value, opts: opts_for(entry, rng.next_u64()), src: Src::Events(evs), faults, context: 0, hint: 0, reenter_at: 0, panic_at: 0 };
+        // one run in ten parses a String / NumberBuf / bool / () on its own (judged by the grammar-free clauses)
+        let target = if rng.chance(1, 10) { *rng.pick(&[Target::String, Target::Number, Target::Number, Target::Bool, Target::Unit]) } else { Target::Value };
+        if target != Target::Value && rng.chance(3, 4) {
+            let own: Vec<char> = match target {
+                Target::String => { let mut o = vec![]; super::docgen::gen_string(&mut rng, &Knobs::draw(&mut Rng::new(run), 40), &mut o, 10); o }
+                Target::Number => { let mut o = vec![]; let mut k = Knobs::draw(&mut Rng::new(run), 40); k.long_numbers = rng.chance(1, 2); super::docgen::gen_number(&mut rng, &k, &mut o); o }
+                Target::Bool => rng.pick(&["true", "false", "tru", "falsee", "t", ""]).chars().collect(),
+                _ => rng.pick(&["null", "nul", "nulll", "n", ""]).chars().collect(),
+            };
+            // a fault or two of the simplest kinds on the snippet: a character replaced, inserted (also in front), dropped
+            let mut own = own;
+            for _ in 0..rng.below(3) {
+                let c = *rng.pick(ALPHABET);
+                let k = if rng.chance(1, 3) { 0 } else { rng.usize_below(own.len() + 1) };
+                match rng.below(3) { 0 => { if k < own.len() { own[k] = c; } else { own.push(c); } } 1 => own.insert(k.min(own.len()), c), _ => { if k < own.len() { own.remove(k); } } }
+            }
+            evs = to_events(&own, profile, salt);
+            if has_fail { evs.push(Ev::Fail(rng.below(1000) as u32)); }
+        }
+        let mut sc = StreamSc { entry, target, opts: opts_for(entry, rng.next_u64()), src: Src::Events(evs), faults, context: 0, hint: 0, reenter_at: 0, panic_at: 0 };
         sc.truncate_after_terminal();
         sc.normalise();
         (sc, first.map(|f| f.0).unwrap_or(K_NONE), first.map(|f| f.1))
